@@ -311,6 +311,10 @@ def check(case, rec: Rec) -> None:
     rec.nontrivial = nontriv >= 1
 
 
+def sample_view(case):
+    return f"{len(case['dir'])} pages {sorted(case['dir'])}; queries:\n" + "\n".join(Q.render(q) for q in case["queries"])
+
+
 def parts(tier):
     from ..engine import load_findings
 
